@@ -158,3 +158,12 @@ package airgapped
 //@   requires am != nil
 //@   modifies Machine.secKey, Machine.pubKey, Machine.encryptionKey
 //@   ensures[C04.drop] am.secKey == nil && am.encryptionKey == nil
+
+// map iterations in the airgapped machine and the dkg glue must not let their order reach results or stored state
+// (a replayed machine has to republish byte-identical results)
+//@ orderfree[C12.order] airgapped dkg
+//@ orderaccept airgapped.Machine).handleStateDkgDealsAwaitConfirmations#0 one private deal per recipient: the set of result messages is the same for every order, only their position in the result file (and the ephemeral ECIES keys drawn for them) varies between runs; recipients handle each deal independently
+//@ orderaccept dkg.DKG).ProcessDeals#0 deals of different dealers are verified independently by kyber; each response carries its own indices, consumers do not use the position in the list
+//@ orderaccept dkg.DKG).ProcessResponses#0 responses of different peers are processed independently by kyber
+//@ orderaccept dkg.DKG).Equals#1 comparison helper used by tests only
+//@ orderaccept airgapped.prompt).showFinishedDKGCommand#0 console listing
